@@ -172,10 +172,13 @@ def _weekday_tokens(prog, rep, rid):
         def effect(b, i, x, store, _r=rets):
             if isinstance(x, dict) and x.get("k") == "ret":
                 v = const_eval(sw, sw.cfg.resolve(x["e"]))
+                if v is None:       # `return s[1] == 'H' ? THU : TUE` — the value under this walk's characters
+                    from ..absw import eval_in as _ev
+                    v = _ev(store, sw.cfg.resolve(x["e"]), sw)
                 _r.append(v)
             return None
         init = {"*" + s_: ord(tok[0]), "%s[1]" % s_: ord(tok[1]) if len(tok) > 1 else 0}
-        AbsWalk(sw, set(init), init=init, effect=effect).run()
+        AbsWalk(sw, set(init) | {l_["n"] for l_ in sw.locals}, init=init, effect=effect).run()
         key = "send_cd/weekday %s" % tok
         if set(rets) == {idx}:
             rep.ok(rid, key, sw.loc(), "written for weekday %d, read back as %d" % (idx, idx))
